@@ -3,6 +3,7 @@ package object
 import (
 	"fmt"
 	"io"
+	"math"
 	"slices"
 	"sort"
 
@@ -433,7 +434,7 @@ func (e *Environment) CreateOrSet(name string, val Object, create bool) Object {
 		old, ok := e.Get(name) // not ok
 		if ok {
 			log.Infof("Attempt to change constant %s from %v to %v", name, old, val)
-			if !Equals(old, val) {
+			if !sameConstant(old, val) {
 				return Error{Value: fmt.Sprintf("attempt to change constant %s from %s to %s", name, old.Inspect(), val.Inspect())}
 			}
 		}
@@ -442,6 +443,48 @@ func (e *Environment) CreateOrSet(name string, val Object, create bool) Object {
 		return Error{Value: fmt.Sprintf("attempt to change internal function %s to %s", name, val.Inspect())}
 	}
 	return e.SetNoChecks(name, val, create)
+}
+
+// sameConstant tells if re-binding a constant from old to val can't be observed. It is stricter than Equals:
+// the types must match at every level (inside a container too, 1 isn't 1.0), floats must have the same bits
+// (0.0 isn't -0.0, 1/x tells them apart) and a function must be the same closure, not just the same text.
+func sameConstant(old, val Object) bool {
+	old, val = Value(old), Value(val)
+	if old.Type() != val.Type() {
+		return false
+	}
+	switch o := old.(type) {
+	case Float:
+		v := val.(Float)
+		return math.Float64bits(o.Value) == math.Float64bits(v.Value) || (o.Value != o.Value && v.Value != v.Value)
+	case Function:
+		v := val.(Function)
+		return o.CacheKey == v.CacheKey && o.Env == v.Env
+	case Array:
+		oe, ve := o.Elements(), val.(Array).Elements()
+		if len(oe) != len(ve) {
+			return false
+		}
+		for i := range oe {
+			if !sameConstant(oe[i], ve[i]) {
+				return false
+			}
+		}
+		return true
+	case Map:
+		oe, ve := o.mapElements(), val.(Map).mapElements()
+		if len(oe) != len(ve) {
+			return false
+		}
+		for i := range oe {
+			if !sameConstant(oe[i].Key, ve[i].Key) || !sameConstant(oe[i].Value, ve[i].Value) {
+				return false
+			}
+		}
+		return true
+	default:
+		return Equals(old, val)
+	}
 }
 
 func NewEnclosedEnvironment(outer *Environment) *Environment {
